@@ -176,6 +176,9 @@ class FakeGH:
             self.h.lost_response_pass = self.h.pass_id
             if kind == 'timeout':
                 raise asyncio.TimeoutError()
+            if kind == 'cancel':
+                # the task running the pass is cancelled at this await (dropped webhook request, wait_for time-out)
+                raise asyncio.CancelledError()
             import aiohttp
             raise aiohttp.ClientConnectionError('connection reset by peer')
         return {}
@@ -661,7 +664,8 @@ class History:
                 self.mid = [tuple(x) for x in (op[1] if len(op) > 1 else [])]
             try:
                 await f(self.db, self.bc, gh, False)
-            except (AssertionError, FaultInjected, ValueError, asyncio.TimeoutError, __import__('aiohttp').ClientError, self.g.gidgethub.HTTPException):
+            except (AssertionError, FaultInjected, ValueError, asyncio.TimeoutError, asyncio.CancelledError, __import__('aiohttp').ClientError,
+                    self.g.gidgethub.HTTPException):
                 pass      # what the webhook handler / update_loop see (logged, 500); the flags stay as the aborted pass left them
             if getattr(self, 'ghfail_pending', False):
                 line, self.ghfail_pending = self.ghfail_pending, False
@@ -1004,7 +1008,7 @@ class C30(Prop):
         ops += [['review', i, 'APPROVED'] for i in range(1, k + 1)]
         ops.append(['notify_gh', []])
         ops += [['done', 0, 1] for _ in range(k)]
-        ops.append(['lose_merge_response', rng.choice(['timeout', 'disconnect'])])
+        ops.append(['lose_merge_response', rng.choice(['timeout', 'disconnect', 'cancel', 'cancel'])])
         ops.append([rng.choice(['notify_batch', 'update']), []])
         ops += [rng.choice([['notify_gh', []], ['notify_gh', []], ['update', []], ['notify_batch', []]]), ['notify_batch', []], ['done', 0, 1], ['done', 0, 1], ['notify_batch', []], ['update', []]]
         return {'ci_required': True, 'ci_last': False, 'order_desc': rng.random() < 0.3, 'oracle_only': True, 'ops': ops}
